@@ -330,6 +330,37 @@ def _mc_and_replay_in(res, scratch, base, cfg, invs, adapter, tier, name, depth,
     res.samples.append({"model": name, "replayed_path": sample})
 
 
+def _mc_and_simulate(base, cfg, invs, adapter_cls, name, nbeh, depth):
+    """Large constants: exhaustive TLC without dumping the graph, then replay of `-simulate` behaviours."""
+    import glob
+
+    from .common import seed
+
+    res = CheckResult("C04", "thorough")
+    adapter = adapter_cls(cfg)
+    with Scratch() as scratch:
+        mod, cf = mcgen.write_mc(scratch, base, cfg, name=f"MC_{base}_big", invariants=invs, properties=["C04_OneObject"])
+        r = tlc.run_tlc(mod, cf, workers=8, coverage=False, java_opts=mcgen.LIB_OPT, timeout=2400, allow_timeout=True)
+        res.add_tlc(name + " (exhaustive, bounded by 40 min)", r)
+        if r.violation_kind:
+            res.violate(f"C04.{r.violation_name}", f"TLC: {r.violation_kind} {r.violation_name} violated in {base} (thorough constants)",
+                        {"trace": [[h, s] for h, s in r.trace]}, key=f"spec:{base}:{r.violation_name}")
+            return res
+        out = os.path.join(scratch, "beh")
+        rs = tlc.run_tlc(mod, cf, workers=1, simulate=f"file={out},num={nbeh}", depth=depth, seed=seed() + 7, coverage=False,
+                         java_opts=mcgen.LIB_OPT, timeout=1800, allow_timeout=True)
+        rp = replay.Replayer(tlc.Graph({}, {}, []), adapter)
+        files = sorted(glob.glob(out + "*"))
+        for f in files:
+            rp.run_behaviour(tlc.load_behaviour(f))
+        res.traces_validated += rp.paths
+        res.extra.setdefault("replay", []).append({"model": name, "simulated_behaviours": len(files), "depth": depth,
+                                                   "steps_executed": rp.steps, "divergence_keys": dict(rp.div_keys)})
+        for d in rp.divergences:
+            res.violate("C04.replay", f"{base}: {d.describe()}", d.detail(), key=f"{base}:{d.key()}")
+    return res
+
+
 def run(tier: str) -> CheckResult:
     res = CheckResult("C04", tier)
     res.assumptions = [
@@ -340,7 +371,7 @@ def run(tier: str) -> CheckResult:
         "worker resource instances have distinct specific ids, or a single 'any' instance per name",
     ]
     q = tier == "quick"
-    lcfgs = ["quick"] if q else ["quick", "thorough"]
+    lcfgs = ["quick"]
     jobs = []
     for c in lcfgs:
         jobs.append(("Ledger", LEDGER_CFG[c], LEDGER_INV, LedgerAdapter, c, f"Ledger/{c}",
@@ -349,6 +380,12 @@ def run(tier: str) -> CheckResult:
                      3 if q else 4, 60000 if q else 3_000_000, 300 if q else 5000, 50 if q else 900))
     for part in parallel(_mc_and_replay, jobs):
         res.merge(part)
+    if not q:
+        # the larger constants: exhaustive model checking + replay of TLC-simulated behaviours (the graph is too big to dump)
+        big = [("Ledger", LEDGER_CFG["thorough"], LEDGER_INV, LedgerAdapter, "Ledger/thorough", 3000, 40),
+               ("Cluster", CLUSTER_CFG["thorough"], CLUSTER_INV, ClusterAdapter, "Cluster/thorough", 3000, 40)]
+        for part in parallel(_mc_and_simulate, big):
+            res.merge(part)
     # T: "whenever no task is running every worker is back at full capacity" on the sim corpus
     from . import simmc, simprops
 
